@@ -68,13 +68,23 @@ Definition s_res {X} (f : X -> sexp) (r : res X) : sexp :=
 Definition s_row (r : row) : sexp :=
   L [sBytes (fst r); sN (v_start (snd r)); sN (v_end (snd r)); enc8 (v_val (snd r))].
 
-Definition tool_out (files : list bwfile) (set out : sexp) : sexp :=
-  let thr := getZ (nthS 0 set) in
-  let adj := get_optZ (nthS 1 set) in
-  let clip := get_optZ (nthS 2 set) in
-  let name := getBytes (nthS 0 out) in
-  let ty := getOpt getBytes (nthS 1 out) in
-  match tool_run MERGE_DATA_SIZE MAX_BW_FDS files thr adj clip ty name with
+(* one run of the tool per output name.  The chromosome table and the merged rows do not depend on the output
+   name, so they are computed once per case and shared ([tool_run_shared] = [tool_run], Proofs/EntryC15Glue.v). *)
+Definition tool_run_shared (ct : res (list chrom_entry)) (rows : res (list row))
+           (output_type : option (list N)) (name : list N) : res (option (otype * list row)) :=
+  match ct with
+  | Ok _ =>
+      match detect_output output_type name with
+      | None => Ok None
+      | Some t => match rows with Ok r => Ok (Some (t, r)) | Err c => Err c | Panic => Panic | Fuel => Fuel end
+      end
+  | Err c => Err c | Panic => Panic | Fuel => Fuel
+  end.
+Definition shared_rows (W : N) (maxfds : nat) (ct : res (list chrom_entry)) (thr : Z) (adj clip : option Z) : res (list row) :=
+  match ct with Ok table => tool_rows W maxfds table thr adj clip | Err c => Err c | Panic => Panic | Fuel => Fuel end.
+
+Definition s_tool (r : res (option (otype * list row))) : sexp :=
+  match r with
   | Ok None => L [A 0%Z; A 0%Z; L []]
   | Ok (Some (OBedGraph, rows)) => L [A 0%Z; A 1%Z; sList s_row rows]
   | Ok (Some (OBigWig, rows)) => L [A 0%Z; A 2%Z; sList s_row rows]
@@ -83,6 +93,14 @@ Definition tool_out (files : list bwfile) (set out : sexp) : sexp :=
   | Fuel => L [A 3%Z; A 0%Z; L []]
   end.
 
+Definition tool_outs (files : list bwfile) (set : sexp) (outs : list sexp) : sexp :=
+  let thr := getZ (nthS 0 set) in
+  let adj := get_optZ (nthS 1 set) in
+  let clip := get_optZ (nthS 2 set) in
+  let ct := chrom_table (all_names files) files [] in
+  let rows := shared_rows MERGE_DATA_SIZE MAX_BW_FDS ct thr adj clip in
+  sList (fun out => s_tool (tool_run_shared ct rows (getOpt getBytes (nthS 1 out)) (getBytes (nthS 0 out)))) outs.
+
 Definition c15_model (c : sexp) : sexp :=
   match getZ (nthS 0 c) with
   | 0%Z => s_res (fun r => sList (s_val enc8) (pieces r)) (merge_into (get_val (nthS 1 c) 0) (get_val (nthS 2 c) 0))
@@ -90,7 +108,7 @@ Definition c15_model (c : sexp) : sexp :=
   | 2%Z => s_res (sList (s_item enc_raw)) (fill (getList get_item (nthS 1 c)))
   | 3%Z => s_res (sList (s_item enc_raw))
                  (fill_start_to_end (getList get_item (nthS 1 c)) (getN (nthS 2 c)) (getN (nthS 3 c)))
-  | 4%Z => L [A 0%Z; sList (tool_out (get_files (nthS 1 c)) (nthS 2 c)) (getL (nthS 3 c))]
+  | 4%Z => L [A 0%Z; tool_outs (get_files (nthS 1 c)) (nthS 2 c) (getL (nthS 3 c))]
   | _ => L [A (-1)%Z]
   end.
 
